@@ -357,6 +357,10 @@ class Cap(object):
             if rid_ is not None and ("lval", rid_) in st.heap:
                 return st.heap[("lval", rid_)]          # the variable's address was taken: a store through it is its value
             v = st.env.get(loc[1])
+            if v is not None and v[0] == "uninit" and any(isinstance(kx, tuple) and len(kx) == 2 and kx[0] == ("dot", loc[1]) for kx in st.heap):
+                # a struct local filled field by field and then used as a whole (entry.f = ..; table[i] = entry;)
+                st.env[loc[1]] = UNK
+                return UNK
             if v is not None and v[0] == "uninit":
                 self.fail(st, "uninit", loc[2], "local `%s` is read on a path on which it was never assigned" % v[1])
                 v = self.fresh_for(st, loc[2], "u_%s_" % v[1])
@@ -2326,6 +2330,16 @@ class Cap(object):
                         sub[key] = ("i", x, v[1])
                     elif v[0] == "p":
                         h.heap[key] = UNK
+            # a modified local whose address has been taken (handed to a helper as &pos): the cell behind the address holds the
+            # same loop-carried value as the variable
+            for d in locs:
+                rid_ = h.heap.get(("addrof_of", d))
+                if rid_ is not None and d in h.env and ("lval", rid_) in h.heap:
+                    h.heap[("lval", rid_)] = h.env[d]
+                if rid_ is not None:
+                    # ... and the fields of a struct local handed to a helper by address are whatever the helper left in them
+                    for kx in [kx for kx in h.heap if isinstance(kx, tuple) and len(kx) == 2 and kx[0] == ("dot", d)]:
+                        del h.heap[kx]
             # memory may be written in the loop: cells read before it are no longer known
             self.forget_cells(h)
             bhkeys.clear()
